@@ -10,7 +10,7 @@ TOKENS = ["int", "x", "y1", "_z", "class", "0", "42", "0x1f", "0b11", "017", "1.
           "template", "typename", "nullptr", "true", "sizeof", "decltype"]
 SEPS = [" ", "  ", "\t", "\n", "\n\n", "\r\n", " /* c */ ", "/*c*/", " // c\n", "/* a\n b */", " \\\n ", "\n \t", "\r\n\r\n", " /**/ "]
 
-LAYOUTS = [" ", "\t", "\n", "\r\n", "  \n  ", "/* c */", " /* c\n c */ ", "// c\n", " \\\n", "\n\n", "\t \t", "/**/", " /* * / */ ", "\r\n\t", "//\n"]
+LAYOUTS = [" \\\r\n", " \\\r\n\t", " ", "\t", "\n", "\r\n", "  \n  ", "/* c */", " /* c\n c */ ", "// c\n", " \\\n", "\n\n", "\t \t", "/**/", " /* * / */ ", "\r\n\t", "//\n"]
 
 
 def random_text(rng, n, seps=SEPS):
